@@ -75,10 +75,17 @@ PROPS["C03"] = {
     ] + [{"spec": "OptProvide.tla", "cfg": c} for c in ("OptProvide_R0_T2_P2_0.cfg", "OptProvide_R1_T2_P2_0.cfg", "OptProvide_R2_T2_P2_2.cfg",
          "OptProvide_R3_T2_P1_0.cfg", "OptProvide_R4_T2_P0_0.cfg", "OptProvide_R4_T3_P1_1.cfg", "OptProvide_R5_T2_P2_0.cfg")] + [
         {"spec": "OptProvide.tla", "cfg": "OptProvide_neg_R0.cfg", "expect": "violation"},
+        {"spec": "QueryRun.tla", "cfg": "QueryRun_quick.cfg"},
+        {"spec": "QueryRun.tla", "cfg": "QueryRun_alpha3.cfg"},
+        {"spec": "QueryRun.tla", "cfg": "QueryRun_thorough.cfg", "tier": "thorough"},
+        {"spec": "QueryRun.tla", "cfg": "QueryRun_neg_cap.cfg", "expect": "violation"},
+        {"spec": "QueryRun.tla", "cfg": "QueryRun_neg_cap_hangs.cfg", "expect": "violation"},
+        {"spec": "QueryRun.tla", "cfg": "QueryRun_neg_spawn.cfg", "expect": "violation"},
+        {"spec": "QueryRun.tla", "cfg": "QueryRun_neg_nowait.cfg", "expect": "violation"},
     ],
     "drivers": [dht_driver("TestOpsAll"), dht_driver("TestOpsOptProvide")],
     "assumptions": COMMON_ASSUME + ["'promptly' and 'bounded time' are judged in virtual time; background work is judged by a goroutine census of the synctest bubble 3 virtual minutes after the operation returned and again after Close"],
-    "explanation": "Deadlock freedom and termination of the lookup protocol are model-checked (Lookup.tla with fairness); every public routing operation of the real IpfsDHT is driven through failing / silent / lying peers, all delivery orders and cancellation points (small scopes) and validated against the C03 clauses of DhtTrace.tla (return, prompt cancel, channel closed, no panic, no background work left).",
+    "explanation": "Deadlock freedom and termination of the lookup protocol are model-checked (Lookup.tla with fairness); QueryRun.tla models how one lookup ends - the loop, its workers, the never-closed channel of capacity alpha and the wait group - with the invariants that every worker in flight can finish its send with nobody reading and that no worker outlives the returned lookup, and the liveness property that a cancelled lookup returns (four negative controls: smaller channel, spawning past alpha, returning without waiting); every public routing operation of the real IpfsDHT is driven through failing / silent / lying peers, all delivery orders and cancellation points (small scopes) and validated against the C03 clauses of DhtTrace.tla (return, prompt cancel, channel closed, no panic, no background work left).",
 }
 PROPS["C04"] = {
     "exhaustive": [
